@@ -66,6 +66,11 @@ func (r *runner) runAll(tier, casesPath string, tail bool) {
 	}
 	// the canary translations are the very first translations of this process
 	r.canary()
+	// the neighbour pairs of ReplanHist.tla against the isolated translations
+	if histPath != "" && isoPath != "" && r.x.Cluster == "" {
+		r.histories(histPath, isoPath, histSeed)
+		lap("history")
+	}
 	// the real Tail next, while the "live" lines are fresh; its statements are compared at the end
 	var tails []*tailRun
 	if tail {
